@@ -866,7 +866,7 @@ impl LocalPeerService {
 
         let filtered = discret_services
             .database
-            .filter_existing_node(remote_nodes)
+            .filter_existing_room_node(room_id, remote_nodes)
             .await?;
         if !filtered.is_empty() {
             has_changes = true;
